@@ -24,9 +24,11 @@ LEVEL_TEXT = (
     "run of Ignored items -- inserted, removed where the next code point cannot extend the token, or rewritten -- and "
     "the kinds and values of all tokens before and after it are unchanged (ignored_invariance, ignored_insertion, "
     "ignored_removal; per-class locality of the grammar's recognisers); strip_ignored_characters rejects exactly what "
-    "the lexer rejects and never crashes; the advance_lexer counter accepts exactly the streams with at most n tokens "
+    "the lexer rejects and never crashes, and for every source text made of Unicode scalar values the stripped text "
+    "lexes to the same kinds and values (block strings re-printed minimised, compared by value) and stripping it again "
+    "returns it unchanged (strip_tokens_partial, strip_idem_partial; uses C08's block-string print/lex round trip); the advance_lexer counter accepts exactly the streams with at most n tokens "
     "and ends at the number of significant tokens. Not proved (kept as full-statement defs, covered by correspondence "
-    "and oracles only): strip_tokens, strip_idem. "
+    "and oracles only): strip_tokens / strip_idem for texts containing surrogate code points. "
     "The models are tied to the code by an exhaustive three-way comparison implementation / model / specification "
     "tokenizer on all strings of length <= 4 (quick) / <= 5 (thorough) over the 16-symbol alphabet, a second "
     "exhaustive pass over a 32-symbol alphabet (<= 3 / <= 4), generated and mutated documents x Ignored classes x "
@@ -34,7 +36,7 @@ LEVEL_TEXT = (
     "idempotence / same-AST / same-rejection oracles, and max_tokens / token_count against the specification's count."
 )
 LEVEL_NOTE = (
-    "Trusted: Lean kernel; hand-written models Gql/Text/Lexer.lean, Strip.lean, StripBlock.lean (tied by "
+    "Trusted: Lean kernel; hand-written models Gql/Text/Lexer.lean, Strip.lean, BlockString.lean (tied by "
     "correspondence, not by translation); the specification transcription Gql/Spec/Lex.lean; the harness. "
     "The parser is not modelled here: 'same AST' is checked on the implementation (metamorphic oracle); the "
     "token-limit theorem is about the counter of advance_lexer over the token stream."
@@ -42,7 +44,7 @@ LEVEL_NOTE = (
 TECHNIQUE = "Lean 4 proof about executable models + exhaustive/generated correspondence + spec/metamorphic oracles"
 TRUSTED = [
     "hand-written Lean models Gql/Text/Lexer.lean (lexer.py), Gql/Text/Strip.lean (strip_ignored_characters, "
-    "advance_lexer counter), Gql/Text/StripBlock.lean (print_block_string); tied to the code by the runs below",
+    "advance_lexer counter), Gql/Text/BlockString.lean (print_block_string, shared with C08); tied to the code by the runs below",
     "Gql/Spec/Lex.lean: transcription of the specification's lexical grammar (§2.1) as suffix recognisers",
     "the parser itself is exercised on the implementation only (AST equality before/after a layout change)",
 ]
